@@ -836,6 +836,11 @@ where
             .waiters
             .push_back(crate::loader::Waiter::Sync(thread::current()));
           drop(inner); // IMPORTANT: Unlock before parking.
+          #[cfg(excsn_fibre_verif)]
+          if fibre::verif::park(None) {
+            inner = future.inner.lock();
+            continue;
+          }
           thread::park();
           inner = future.inner.lock(); // Re-acquire lock after being woken up.
         }
